@@ -401,6 +401,39 @@ class KeptNames(FragmentTask):
         ctx.oblige("frame.ids_keep-unchanged", inp["self_"].attrs.get("ids_keep") == self.ids, "P")
 
 
+class KeptIds(FragmentTask):
+    """The statements of Chef.__init__ that turn the kept_fields string into component indices (real code, bounded
+    skeletons): ids_keep lists the index of every requested name that is a field of the plotfile, in the requested order -
+    component 0 included, unknown names skipped, None keeps nothing."""
+    prop = "C11"
+    reach = "S"
+    qual = CF + "Chef.__init__"
+    first = staticmethod(FragmentTask.assigns("ids_keep"))
+
+    @staticmethod
+    def last(s):
+        import ast
+        return isinstance(s, ast.If) and "kept_fields" in ast.unparse(s.test)
+
+    def __init__(self, names, kept):
+        self.names, self.kept = list(names), kept
+        self.name = f"Chef.__init__.kept-ids[fields={','.join(names)};kept={kept!r}]"
+
+    def setup(self, ex):
+        self_ = Record(CF + "Chef", fields={n: k for k, n in enumerate(self.names)})
+        return {"frame": {"self": self_, "kept_fields": self.kept}, "self_": self_}
+
+    def post(self, ex, inp, out):
+        ctx = ex.ctx
+        ctx.oblige("raises-nothing", out.kind == "ret", "P", note=str(out.exc) if out.kind != "ret" else "")
+        if out.kind != "ret":
+            return
+        exp = [self.names.index(n) for n in (self.kept.split() if self.kept is not None else []) if n in self.names]
+        got = inp["self_"].attrs.get("ids_keep")
+        ctx.oblige("post.indices-of-the-requested-fields-in-requested-order", isinstance(got, list) and list(got) == exp, "P",
+                   note=f"{got} vs {exp}")
+
+
 class SarrayInput(Task):
     """Chef.sarray_input (real code, bounded skeletons: concrete field names and mechanism species): accepted only when temp
     and every Y(species) are fields and the species sit contiguously in mechanism order; then [species_start, species_end)
@@ -624,6 +657,8 @@ class StateTables(Task):
 
 def init_tasks(tier):
     out = [KeptNames(3, [2, 0], 1), KeptNames(3, [1, 1], 2), KeptNames(2, [], 1), KeptNames(4, [3, 1, 2], 1)]
+    out += [KeptIds(["a", "b", "c"], "c a"), KeptIds(["a", "b", "c"], "a"), KeptIds(["a", "b", "c"], "zz b"), KeptIds(["a", "b"], None),
+            KeptIds(["temp", "rho"], "rho  temp rho"), KeptIds(["a"], "")]
     out += [SarrayInput(["density", "temp", "Y(H2)", "Y(O2)", "Y(N2)", "p"], ["H2", "O2", "N2"]),
             SarrayInput(["Y(A)", "Y(B)", "temp"], ["A", "B"], 1.0),
             SarrayInput(["temp", "Y(A)"], ["A"], 0.5),
